@@ -309,22 +309,23 @@ def dump_states(cfg_name, module="MC_Eco", timeout=900):
         shutil.rmtree(d, ignore_errors=True)
 
 
-def edge_messages(cfg_name, states, module="MC_Eco", timeout=1800):
-    """For every state the full message domain of the configuration (EdgeGen.tla)."""
+def edge_messages(cfg_name, states, module="MC_Eco", timeout=1800, gen="EdgeGen", stvar="st"):
+    """For every state the full message domain of the configuration (EdgeGen.tla / EdgeGenData.tla)."""
     d = scratch("edges")
     try:
         _copy_spec(d)
         with open(os.path.join(d, "states.ndjson"), "w") as f:
             for s in states:
-                f.write(json.dumps(s["st"]) + "\n")
+                f.write(json.dumps(s[stvar]) + "\n")
         cfg = strip_props(open(os.path.join(SPEC, "cfg", cfg_name + ".cfg")).read())
         cfg = re.sub(r"^SPECIFICATION .*$", "INIT Init\nNEXT EStop", cfg, flags=re.M)
         cfg = re.sub(r"^VIEW .*\n", "", cfg, flags=re.M)
-        open(os.path.join(d, "EdgeGen.cfg"), "w").write(cfg)
+        cfg = re.sub(r"^\s*DepthE = .*\n", "", cfg, flags=re.M)
+        open(os.path.join(d, gen + ".cfg"), "w").write(cfg)
         env_opts = os.environ.get("JAVA_TOOL_OPTIONS", "")
         os.environ["JAVA_TOOL_OPTIONS"] = (env_opts + " -Xss512m").strip()
         try:
-            rc, out, wall = run_tlc(d, "EdgeGen.tla", [], timeout, workers=1)
+            rc, out, wall = run_tlc(d, gen + ".tla", [], timeout, workers=1)
         finally:
             os.environ["JAVA_TOOL_OPTIONS"] = env_opts
         ep = os.path.join(d, "edges.ndjson")
